@@ -316,6 +316,32 @@ def gen_pingpong(rng, n):
     return out
 
 
+def gen_overflow_then_flush(rng, n):
+    """C04: overflow while no flush request is outstanding (stalled writer), the backlog is written without
+    any request; later a backlog below the capacity is appended to a slow stream (drain passes end at the
+    flush deadline) and a flush is requested: it completes only after that backlog has been written"""
+    out = []
+    for i in range(n):
+        cap = rng.choice([128, 160, 256])   # the late backlog (cap - 5..30 entries) takes at least three drain passes of 32
+        out.append({"cap": cap, "boxed": rng.random() < 0.5, "flush_us": 1000,
+                    "producers": [{"n": 1 + cap + rng.randint(100, 300), "pace_us": 0}], "results": {}, "flushers": [],
+                    "stall": {"k": 1}, "end": "drop",
+                    "late_phase": {"n": cap - rng.randint(5, 30), "slow_us": rng.choice([200, 300]), "settle_ms": 60},
+                    "kind": "overflow-then-flush"})
+    return out
+
+
+def gen_unused_forget(rng, n):
+    """C05: a queue that is never used - no append, no flush request -, its join handle forgotten, clones made
+    and dropped: once the last queue handle is gone the stream is flushed and closed and the thread exits"""
+    out = []
+    for i in range(n):
+        out.append({"cap": rng.choice([1, 64]), "boxed": rng.random() < 0.5, "flush_us": rng.choice([1000, 20000]),
+                    "producers": [{"n": 0, "pace_us": 0} for _ in range(rng.randint(0, 2))], "results": {}, "flushers": [],
+                    "end": "forget", "no_final_flush": True, "kind": "unused-forget"})
+    return out
+
+
 def gen_aod(rng, n):
     """C05: AppendOnDrop guards (into_entry / forget / dropped) are queue handles while they live and not
     afterwards: after forget + the last handle dropped the queue still shuts down by itself"""
@@ -332,7 +358,13 @@ def gen_builder_order(rng, n):
     with a capacity above the default 64Ki (stalled writer, 1000-2000 entries beyond the capacity)"""
     out = []
     for i in range(n):
-        if i == 0:
+        if i == 1:
+            # 16 KiB entries: the ring buffer is tens of MiB, the configured capacity still holds exactly
+            cap = rng.choice([1500, 2048])
+            out.append({"cap": cap, "big": True, "flush_us": 1000, "producers": [{"n": cap + rng.choice([0, 1, 40]), "pace_us": 0}],
+                        "results": {}, "flushers": [], "end": "drop", "recorder": True, "bulk": True, "stall": {"k": 1},
+                        "kind": "bulk-bigentry"})
+        elif i == 0:
             cap = rng.choice([70000, 66000])
             out.append({"cap": cap, "boxed": rng.random() < 0.5, "flush_us": 1000, "producers": [{"n": cap + rng.randint(1000, 2000), "pace_us": 0}],
                         "results": {}, "flushers": [], "end": "drop", "recorder": True, "bulk": True, "stall": {"k": 1},
@@ -417,7 +449,7 @@ def run_recorded(chk, prop, scen, tag="rec", chunk=150, subscriber=False, extra_
         def on_reject(meta, v, lines):
             what = (f"recorded execution of scenario {meta['id']} is not a behaviour of {'QueueAbs' if tspec == 'QueueTrace' else tspec}: "
                     + (f"invariant {v.invariant} violated" if v.invariant else f"event {json.dumps(v.event)} (line {v.rel_line} of the scenario trace) is not enabled")
-                    + f"; abstract state before it: {v.state}")
+                    + f"; abstract state before it: {str(v.state)[:700]}")
             ev = v.event if isinstance(v.event, dict) else {}
             key = f"{prop}:{ev.get('ev')}:{meta['scenario'].get('end')}"
             chk.violation(what, {"kind": "recorded", "scenario": meta["scenario"], "rejected_line": v.rel_line,
@@ -687,11 +719,14 @@ def run(prop, tier):
     q = tier == "quick"
     if prop == "C01":
         scen += gen_forget_slowflush(rng, 6 if q else 60) + gen_smallcap_flush(rng, 8 if q else 80) + gen_report_burst(rng, 1 if q else 4) + gen_io_burst(rng, 2 if q else 8)
+        scen += gen_stall_shutdown(rng, 2 if q else 10)
     if prop == "C04":
         scen += gen_slowflush_busy(rng, 10 if q else 80) + gen_flush_storm(rng, 1 if q else 4)
         scen += gen_allfail_progress(rng, 3 if q else 30) + gen_pingpong(rng, 6 if q else 60)
+        scen += gen_overflow_then_flush(rng, 3 if q else 30)
     if prop == "C05":
         scen += gen_forget_slowflush(rng, 6 if q else 60) + gen_flush_faults(rng, 4 if q else 40) + gen_stall_shutdown(rng, 3 if q else 20) + gen_drop_variants(rng, 4 if q else 40) + gen_aod(rng, 4 if q else 40)
+        scen += gen_unused_forget(rng, 3 if q else 20)
     if prop == "C09":
         scen += gen_forget_slowflush(rng, 6 if q else 40)
         scen += gen_race_rounds(rng, 24 if q else 200, 50) + gen_pair_rounds(rng, 10 if q else 80, 60) + gen_count_only(rng, 3 if q else 30, 2400 if q else 12000)
